@@ -357,9 +357,10 @@ func (srv *server) registerClient(connect *packets.Connect, client *client) (ses
 			var willDelayInterval, expiryInterval uint32
 			if connect.WillFlag {
 				willMsg = &gmqtt.Message{
-					QoS:     connect.WillQos,
-					Topic:   string(connect.WillTopic),
-					Payload: connect.WillMsg,
+					QoS:      connect.WillQos,
+					Retained: connect.WillRetain,
+					Topic:    string(connect.WillTopic),
+					Payload:  connect.WillMsg,
 				}
 				setWillProperties(connect.WillProperties, willMsg)
 			}
@@ -526,6 +527,14 @@ func (srv *server) sendWillLocked(msg *gmqtt.Message, clientID string) {
 	// the will message is dropped
 	if req.Message == nil {
 		return
+	}
+	// a will published with the retain flag replaces the retained message of its topic [MQTT-3.1.2-17].
+	if req.Message.Retained {
+		if len(req.Message.Payload) == 0 {
+			srv.retainedDB.Remove(req.Message.Topic)
+		} else {
+			srv.retainedDB.AddOrReplace(req.Message.Copy())
+		}
 	}
 	// publish what the hook left: the (possibly replaced) message under the (possibly narrowed) iteration options.
 	srv.deliverMessage(clientID, req.Message, req.IterationOptions)
